@@ -451,9 +451,9 @@ inline void runMsgPack(Ctx& C) {
       one(ob, plain);
     }
   }
-  const std::vector<size_t> binSizes = len4 ? std::vector<size_t>{0, 1, 255, 256, 65535, 65536, 65537}
+  const std::vector<size_t> binSizes = len4 ? std::vector<size_t>{0, 1, 255, 256, 65535, 65536, 65537, 0xFFFFFF, 0x1000000, 0x1000001}
                                             : std::vector<size_t>{0, 1, 2, 3, 4, 5, 8, 9, 15, 16, 17, 255, 256, 257, 65000, 65535, 65536};
-  const std::vector<size_t> strSizes = len4 ? std::vector<size_t>{31, 32, 255, 256, 65534, 65535, 65536, 65537}
+  const std::vector<size_t> strSizes = len4 ? std::vector<size_t>{31, 32, 255, 256, 65534, 65535, 65536, 65537, 0x1000000}
                                             : std::vector<size_t>{0, 1, 30, 31, 32, 33, 254, 255, 256, 257, 65534, 65535, 65536, 65537};
   // bin / ext through the API
   for (size_t n : binSizes) {
@@ -520,7 +520,7 @@ inline void runMsgPack(Ctx& C) {
     one(a, o);
   }
   if (len4) {
-    C.bound("STRING_LENGTH_SIZE=4 build: strings, keys, bin and ext payloads of 65535, 65536, 65537 bytes (and control sizes)");
+    C.bound("STRING_LENGTH_SIZE=4 build: strings, keys, bin and ext payloads of 65535, 65536, 65537 bytes, bin and ext payloads of 2^24-1, 2^24, 2^24+1 bytes and strings / keys of 2^24 bytes (every byte of a 32-bit length non-zero somewhere), and control sizes");
     return;
   }
   // nil, booleans, integers in both storages
